@@ -14,13 +14,13 @@ TEXT = {
  "C04": "Theorems: a successful put takes two names that were free and frames every other payload and info file; two successive puts own distinct names and both payloads stay whole; move-into-directory is unreachable when the destination is free; the first 100 suffixes are distinct. Tied to /repo by world runs over trash directories pre-populated with up to 120 colliding names of every kind, checking every previously trashed entry byte for byte.",
  "C05": "Theorems: every state a kill can leave behind while the put core runs (before each call, and the final one) keeps the entry complete at its origin or under files/N, and shows a payload only next to its complete .trashinfo; atomic_write's intermediate states are absent/empty/complete. Tied to /repo by recording the sandbox before every mutating call of real runs, comparing the sequence with the model's and evaluating C05.Holds on each state; real kills in the thorough tier.",
  "C06": "Theorems: without --overwrite any existing destination (lexists) makes the restore fail before any call, under every fault oracle; a multi-index selection stops there; the command exits 1; with --overwrite a non-directory payload replaces an existing regular file, and the destination is left alone when the payload is missing (same index twice); a dangling link on the way to the destination's parent fails the restore without a change. Tied to /repo by restore worlds with destinations of every kind, duplicate locations and repeated indices.",
- "C07": "Theorems: home path from the environment (empty XDG_DATA_HOME = unset), candidate order, gates, rejected candidates are left untouched, created directories are 0700, the lexical volume ascent returns the device root on plain canonical paths; a candidate behind a symbolic link that does not resolve is left without a call and the next one is tried. Tied to /repo by world runs over the configuration lattice (single- and multi-argument, every argument judged on its own) with an independent device-level table (C07.expected) as oracle.",
+ "C07": "Theorems: home path from the environment (empty XDG_DATA_HOME = unset), candidate order, gates, rejected candidates are left untouched, created directories are 0700, the lexical volume ascent returns the device root on plain canonical paths; a candidate behind a symbolic link that does not resolve is left without a call and the next one is tried. Tied to /repo by world runs over the configuration lattice (single- and multi-argument, every argument judged on its own) with an independent device-level table (C07.expected) as oracle. Whole runs (Props/C07Cmd): on first use the missing part of the home trash is created (ancestors 0755, Trash/files/info 0700) and the entry trashed by one rename; a file on another volume goes to $topdir/.Trash/$uid behind a sticky real .Trash, else to $topdir/.Trash-$uid (created 0700), Path relative to $topdir; --trash-dir on another volume creates nothing and exits 74.",
  "C08": "Theorems: trash-put's security check rejects $topdir/.Trash/$uid exactly when $topdir/.Trash is a symlink, not a directory or not sticky; the scanner of list/empty/rm and trash-restore never yield it then; trash-list reports it. Tied to /repo by runs of all five commands on worlds with every .Trash state and a populated .Trash/$uid. Whole runs (Props/C08Cmd, every fault oracle): trash-empty and trash-rm change nothing at or below an insecure .Trash/$uid that is apart from the directories the scanner yields; trash-list mutates nothing and prints only lines of found directories; trash-restore offers nothing from it.",
  "C09": "Theorems: trash-list is a function of the bag; the put core adds exactly one element; purge and restore cores remove exactly the selected one; C09Hist.history: induction over any history of put/purge/restore operations on a trash directory (invariant + local side conditions) - the bag is the fold of the abstract add/remove steps, and the listing shows exactly the live names (list_after_history). The string-level front of each command is validated: seeded histories, after every step listing = Effects.bagLines of the on-disk state, the step's effect judged by Effects.check, model transition = implementation transition.",
  "C10": "Theorems: the model of older_than agrees with an independent day-by-day calendar for every DAYS, current time and date; boundary kept, one second older purged, future kept, antitone in DAYS; only the first DeletionDate line counts. Tied to /repo by an exhaustive boundary-grid differential check and by trash-empty world runs whose effects are checked against ground-truth dates. Loop level (Props/C10Loop): over a whole info/ directory exactly the entries the decision selects on the initial state disappear whole, every other entry and everything outside files/ and info/ is unchanged; the decision is the property's date rule; the DAYS-overflow abort is characterised.",
  "C11": "Theorems (every fault oracle): rmtree / remove_file2 / remove_file_if_exists / remove_file change no path outside the subtree they are given; a symlink payload is unlinked; the payload path of an accepted info name lies under files/. Tied to /repo by trash-rm / trash-empty runs on trash contents full of symlinks to sentinels, checking every path outside files/ and info/.",
  "C12": "Theorems: the greedy matcher mirroring fnmatch.translate decides a declarative matching relation for every pattern and string; literal patterns match only themselves; subject = full path iff the pattern starts with '/'. Tied to /repo by an exhaustive differential check of Filter.matches over small alphabets and by trash-rm world runs. Loop level (Props/C10Loop, namespace C12Loop): rmInfos purges exactly the entries whose recorded location matches, reports and keeps unparsable ones, leaves every other entry unchanged.",
- "C13": "Theorems: parse_indexes accepts a reply iff it denotes (independent relational grammar) indices all within the list and returns exactly those; the scope test is a component-boundary prefix test; the offered list is a sorted permutation for every --sort mode. Tied to /repo by exhaustive function-level checks and by trash-restore world runs (listing and effects against ground truth).",
+ "C13": "Theorems: parse_indexes accepts a reply iff it denotes (independent relational grammar) indices all within the list and returns exactly those; the scope test is a component-boundary prefix test; the offered list is a sorted permutation for every --sort mode. Tied to /repo by exhaustive function-level checks and by trash-restore world runs (listing and effects against ground truth). Whole runs (Props/C13Cmd): a reply that is not accepted, an empty reply or end of input changes nothing (every fault oracle); an accepted reply restores exactly the selected entries whole and leaves every other entry and everything else unchanged; the run stops at the first refusal.",
  "C14": "Theorems: with --dry-run, and in interactive mode with a reply not beginning with y/Y or end of input, trash-empty issues no file-system call for every world, DAYS and oracle. Tied to /repo by world runs, an exhaustive check of parse_reply, and dry-run vs real-run differential runs on copies.",
  "C15": "Theorems: while one entry is purged the info file is untouched as long as the payload root exists (every oracle); re-running the purge completes it; a same-volume restore keeps the entry complete in the trash or at its destination in every intermediate state. Tied to /repo by recorded pre-call states of restore/empty/rm runs, and kill-and-rerun runs.",
  "C16": "Theorems (every fault oracle): every argument is handled in order unless the run aborts; exit 0 iff no argument failed, 74 otherwise, 1 on abort; every failed argument is named on stderr; -f forgives only missing paths, -i skips only on a non-y reply. Independence (Props/C16Indep): what follows an argument never changes what happened before it; arguments that leave the file system alone are transparent at any position (every oracle); two really-trashed arguments commute at the resolved layer and, for canonical spellings, in the home trash (_partial); the first literal statement is refuted by 10 kernel-checked counterexamples. The general case is validated differentially (each argument alone on a copy: outcome, trash directory, recorded Path).",
